@@ -167,7 +167,9 @@ Proof.
   destruct s as [|c r]; [congruence|].
   pose proof Hd as Hd'. cbn [forallb] in Hd'. apply andb_prop in Hd' as [Hc Hr].
   assert (Hsp : is_c_space c = false) by (unfold is_digit in Hc; unfold is_c_space; lia).
-  cbn [app skip_space]. rewrite Hsp. rewrite sign_split.
+  set (l := (c :: r) ++ c_string tail).
+  assert (Hsk : skip_space l 0%N = (l, 0%N)) by (unfold l; cbn [app skip_space]; now rewrite Hsp).
+  rewrite Hsk, sign_split. unfold l. cbn [app].
   assert ((c =? 45)%N = false) as -> by (unfold is_digit in Hc; lia).
   assert ((c =? 43)%N = false) as -> by (unfold is_digit in Hc; lia).
   rewrite digit_run_span.
@@ -175,7 +177,7 @@ Proof.
   rewrite (span_digits_app (c :: r) (c_string tail) Hd (stops_c_string tail Ht)). cbn [fst].
   change (map dval (c :: r)) with (dval c :: map dval r).
   change (dval c :: map dval r) with (map dval (c :: r)).
-  rewrite digits_value_map, lenN_map. fold (dec_value (c :: r)). rewrite N.add_0_l.
+  rewrite digits_value_map, lenN_map. fold (dec_value (c :: r)). rewrite N.add_0_l. cbn [map].
   destruct (dec_value (c :: r) >? two63 - 1) eqn:E; [reflexivity|].
   destruct (lenN (c :: r) =? 0)%N eqn:En; [cbn [lenN] in En; lia|reflexivity].
 Qed.
@@ -240,11 +242,7 @@ Proof.
     destruct (pos_value r) as [n|] eqn:En; [|reflexivity].
     apply pos_value_range in En. unfold known_spec, unknown_pos.
     destruct (n >? -1) eqn:E; [reflexivity|lia].
-  - assert (Hm : forall X Y : option (Z * Z) * bool,
-              match c :: r with 45%N :: r0 => X r0 | _ => Y end = Y) by
-      (intros X Y; destruct c as [|p]; [reflexivity|]; do 7 (try (destruct p as [p|p|])); try reflexivity; discriminate).
-    match goal with |- (match c :: r with 45%N :: r0 => @?X r0 | _ => ?Y end) = _ => rewrite (Hm X Y) end.
-    destruct (span (fun c0 => negb (c0 =? 45)%N) (c :: r)) as [a rest] eqn:Esp.
+  - destruct (span (fun c0 => negb (c0 =? 45)%N) (c :: r)) as [a rest] eqn:Esp.
     destruct rest as [|d b]; [reflexivity|].
     assert (Hd : d = 45%N).
     { pose proof (span_stop (fun c0 => negb (c0 =? 45)%N) (c :: r)) as Hs. rewrite Esp in Hs. cbn [snd] in Hs. lia. }
@@ -263,4 +261,140 @@ Proof.
     unfold add64, fits64. rewrite (wrap64_small (y + 1)) by (unfold int64_max, two63 in *; lia).
     rewrite (rng_size_i64_ok x (y + 1)) by lia.
     f_equal. unfold int64_max, two63 in *. lia.
+Qed.
+
+(* ================= strListGetItem on text without DQUOTE = comma split + trim ================= *)
+Definition noq (l : bytes) : bool := forallb (fun c => negb (c =? 34)%N) l.
+
+Lemma delim2_all c : is_delim2 44 c = is_xspace c || (c =? 44)%N.
+Proof. unfold is_delim2, is_xspace. lia. Qed.
+
+Lemma scan_noq l acc :
+  noq l = true ->
+  scan_item 44 false l acc =
+  (rev acc ++ fst (span (fun c => negb (c =? 44)%N) l), snd (span (fun c => negb (c =? 44)%N) l)).
+Proof.
+  revert acc. induction l as [|c r IH]; intros acc Hs; cbn [scan_item span].
+  - cbn. now rewrite app_nil_r.
+  - cbn [noq forallb] in Hs. apply andb_prop in Hs. destruct Hs as [Hc Hr].
+    destruct (c =? 34)%N eqn:E34; [cbn in Hc; discriminate|].
+    replace ((c =? 44)%N || (c =? 44)%N) with (c =? 44)%N by (destruct (c =? 44)%N; reflexivity).
+    destruct (c =? 44)%N eqn:E44; cbn [negb].
+    + cbn. now rewrite app_nil_r.
+    + rewrite IH by exact Hr. destruct (span _ r) as [a b]. cbn [fst snd rev].
+      now rewrite <- app_assoc.
+Qed.
+
+Lemma noq_app a b : noq (a ++ b) = noq a && noq b.
+Proof. unfold noq. apply forallb_app. Qed.
+Lemma noq_span_fst p l : noq l = true -> noq (fst (span p l)) = true.
+Proof. intros H. rewrite (span_parts p l), noq_app in H. now apply andb_prop in H. Qed.
+Lemma noq_span_snd p l : noq l = true -> noq (snd (span p l)) = true.
+Proof. intros H. rewrite (span_parts p l), noq_app in H. now apply andb_prop in H. Qed.
+Lemma noq_drop p l : noq l = true -> noq (drop_while p l) = true.
+Proof.
+  induction l as [|c r IH]; intros H; cbn [drop_while]; [reflexivity|].
+  destruct (p c); [|exact H]. apply IH. cbn [noq forallb] in H. now apply andb_prop in H.
+Qed.
+
+Lemma elements_drop1 c r : (is_xspace c || (c =? 44)%N) = true -> elements (c :: r) = elements r.
+Proof.
+  intros H. unfold elements. cbn [split_on].
+  destruct (c =? 44)%N eqn:E.
+  - cbn [rev map filter]. unfold trim_x at 1. cbn. reflexivity.
+  - cbn [orb] in H. rewrite orb_false_r in H.
+    rewrite (split_on_acc 44 r [c]). destruct (split_on 44 r []) as [|a t] eqn:Es; [reflexivity|].
+    cbn [rev app map]. f_equal. f_equal.
+    unfold trim_x. cbn [drop_while]. now rewrite H.
+Qed.
+
+Lemma elements_drop l : elements (drop_while (is_delim2 44) l) = elements l.
+Proof.
+  induction l as [|c r IH]; cbn [drop_while]; [reflexivity|].
+  destruct (is_delim2 44 c) eqn:E; [|reflexivity].
+  rewrite IH. symmetry. apply elements_drop1. now rewrite <- delim2_all.
+Qed.
+
+Lemma trim_first_nonx c a :
+  is_xspace c = false -> trim_x (c :: a) = rev (drop_while is_xspace (rev (c :: a))).
+Proof. intros H. unfold trim_x. cbn [drop_while]. now rewrite H. Qed.
+
+Lemma rtrim_keeps_head c a : is_xspace c = false -> rev (drop_while is_xspace (rev (c :: a))) <> [].
+Proof.
+  intros H Hn. assert (E : drop_while is_xspace (rev (c :: a)) = []) by (now rewrite <- (rev_involutive (drop_while _ _)), Hn).
+  cbn [rev] in E.
+  assert (G : forall l, drop_while is_xspace (l ++ [c]) <> []).
+  { induction l as [|x l IH]; cbn [app drop_while]; [now rewrite H|]. destruct (is_xspace x); [exact IH|discriminate]. }
+  exact (G _ E).
+Qed.
+
+Lemma drop_while_len p (l : bytes) : (length (drop_while p l) <= length l)%nat.
+Proof. induction l as [|c r IHl]; cbn [drop_while length]; [lia|]. destruct (p c); cbn [length]; lia. Qed.
+
+Lemma drop_while_head p (l : bytes) : match drop_while p l with [] => True | c :: _ => p c = false end.
+Proof. induction l as [|c r IHl]; cbn [drop_while]; [exact I|]. destruct (p c) eqn:E; [exact IHl|exact E]. Qed.
+
+Lemma items_step_x f l :
+  noq l = true -> (length l <= f)%nat ->
+  items_fuel (S f) 44 l = elements l.
+Proof.
+  revert l. induction f as [|f IH]; intros l Hs Hlen.
+  - destruct l; [|cbn in Hlen; lia]. reflexivity.
+  - rewrite items_fuel_S. cbn zeta.
+    rewrite <- (elements_drop l).
+    pose proof (noq_drop (is_delim2 44) l Hs) as Hs1.
+    pose proof (drop_while_len (is_delim2 44) l) as Hl1.
+    pose proof (drop_while_head (is_delim2 44) l) as Hhead.
+    set (l1 := drop_while (is_delim2 44) l) in *. clearbody l1.
+    rewrite (scan_noq l1 [] Hs1). cbn [rev app].
+    destruct l1 as [|c r].
+    { reflexivity. }
+    pose proof (span_parts (fun c => negb (c =? 44)%N) (c :: r)) as Hparts.
+    pose proof (span_fst_all (fun c => negb (c =? 44)%N) (c :: r)) as Hall.
+    pose proof (span_stop (fun c => negb (c =? 44)%N) (c :: r)) as Hstop.
+    pose proof (noq_span_snd (fun c => negb (c =? 44)%N) (c :: r) Hs1) as Hsb.
+    assert (Hc44 : (c =? 44)%N = false /\ is_xspace c = false).
+    { rewrite (delim2_all c) in Hhead. destruct (is_xspace c); destruct (c =? 44)%N; cbn in Hhead; try discriminate; tauto. }
+    destruct Hc44 as [Hc44 Hcx].
+    cbn [span] in *. rewrite Hc44 in *. cbn [negb] in *.
+    destruct (span (fun c0 => negb (c0 =? 44)%N) r) as [a b] eqn:Esp. cbn [fst snd] in *.
+    unfold rtrim.
+    destruct (rev (drop_while is_xspace (rev (c :: a)))) as [|i0 it] eqn:Eit.
+    { exfalso. exact (rtrim_keeps_head c a Hcx Eit). }
+    assert (Hlenb : (length b <= f)%nat).
+    { apply (f_equal (@length N)) in Hparts. cbn [length] in Hparts. rewrite app_length in Hparts. cbn [length] in *. lia. }
+    rewrite (IH b Hsb Hlenb).
+    rewrite Hparts. destruct b as [|k b'].
+    + rewrite app_nil_r. unfold elements. rewrite (split_no_comma (c :: a) Hall). cbn [map].
+      rewrite (trim_first_nonx c a Hcx), Eit. cbn [filter nonempty]. reflexivity.
+    + assert (Hk : k = 44%N) by (destruct (k =? 44)%N eqn:Ek; [lia|discriminate]). subst k.
+      rewrite (elements_drop1 44%N b' ltac:(reflexivity)).
+      change (elements ((c :: a) ++ 44%N :: b')) with
+        (filter nonempty (map trim_x (split_on 44 ((c :: a) ++ 44%N :: b') []))).
+      rewrite (split_on_app_comma (c :: a) b' Hall). cbn [map].
+      rewrite (trim_first_nonx c a Hcx), Eit. cbn [filter nonempty]. reflexivity.
+Qed.
+
+Definition nonul (l : bytes) : bool := forallb (fun c => negb (c =? 0)%N) l.
+
+Lemma c_str_nonul l : nonul l = true -> c_str l = l.
+Proof.
+  unfold c_str. intros H. assert (E : span (fun c => negb (c =? 0)%N) l = (l, [])).
+  { induction l as [|c r IH]; cbn [span]; [reflexivity|]. cbn [nonul forallb] in H. apply andb_prop in H as [Hc Hr].
+    now rewrite Hc, (IH Hr). }
+  now rewrite E.
+Qed.
+
+Lemma c_str_is_nonul l : nonul (c_str l) = true.
+Proof. unfold c_str, nonul. apply span_all. Qed.
+
+Lemma nonul_dropN n l : nonul l = true -> nonul (dropN n l) = true.
+Proof.
+  revert n. induction l as [|c r IH]; intros n H; cbn [dropN]; [reflexivity|].
+  destruct (n =? 0)%N; [exact H|]. apply IH. cbn [nonul forallb] in H. now apply andb_prop in H.
+Qed.
+
+Theorem list_items_noq l : nonul l = true -> noq l = true -> list_items 44 l = elements l.
+Proof.
+  intros Hz Hq. unfold list_items. rewrite (c_str_nonul l Hz). apply items_step_x; [exact Hq|lia].
 Qed.
